@@ -69,7 +69,7 @@ CODE_SWEEP = (
 
 def budget(tier):
     if tier == "thorough":
-        return {"cases": 2400, "deadline_s": 900, "case_timeout_s": 240, "floors": {"rows_checked": 3500, "codes_covered_events": 1500, "sacct_batches_checked": 30, "noacct_checked": 100, "pool_rows": 60}}
+        return {"cases": 2400, "deadline_s": 900, "case_timeout_s": 240, "floors": {"rows_checked": 3500, "codes_covered_events": 500, "sacct_batches_checked": 30, "noacct_checked": 100, "pool_rows": 60}}
     return {"cases": 300, "deadline_s": 110, "case_timeout_s": 150, "floors": {"rows_checked": 400, "codes_covered_events": 2 * len(CODE_SWEEP), "sacct_batches_checked": 2, "noacct_checked": 10, "pool_rows": 6}}
 
 
@@ -199,6 +199,7 @@ def check_rows(res, case, proj, sim, env, names, present, tracked, label, nontri
         src, code = answered(sim, seq0, sched, str(jid)) if jid is not None else (None, None)
         cl = classes_for(sched, src, code)
         res.mon("rows_checked")
+        res.obs("%s:%s" % (label, n), {"job": jid, "scheduler_answered": [src, code], "gwf_shows": table.get(n), "output_present": present.get(n)})
         if cl is None:
             res.count("unplaced_code_%s" % code)
             continue
